@@ -34,7 +34,9 @@ ASSUMPTIONS = [
     'following alternatives (2020-13-45 is 2020 - 13 - 45); modelled in the lexer',
     'character level is proved (C06_lex_roundtrip / C06_text_roundtrip) for the spelling relation of Model/Spelling.v (incl. either '
     'quote character for strings); the renderer additionally drops a zero integer part of decimals (.5 for 0.5: tested only)',
-    'alphabet: code points of the BMP; Unicode decimal digits other than 0-9 (accepted by \\d) are not generated',
+    'alphabet: any code point except surrogates inside string literals (constants, list elements, subscript keys, JOURNAL patterns: '
+    'BMP and astral, non-NFC, controls), code points of the BMP elsewhere; Unicode decimal digits other than 0-9 (accepted by \\d) are '
+    'not generated outside strings; mutated texts containing astral code points are left out of the mutated stream',
     'the in-process parser is tatsu.compile(bql.ebnf) run with BQLSemantics; TatSu passes rule parameters of an interpreted '
     'grammar as one string "Neg::UnaryOp", the harness adapter keeps the first component (as the generated code does)',
     'PEG stream: Model/Peg.v is a generic interpreter of the regenerated grammar value (proved sound w.r.t. a declarative PEG '
@@ -55,6 +57,85 @@ NAMES = ['a', 'b', 'x', 'account', 'date', 'open', 'close', 'clear', 'on', 'at',
          'true_v', 'in_x', 's', 'sum', '_u', 'x1', 'is_z', 'or_1', 'asc_x', 'selected', 'nulls', 'and_', 'from_x']
 FNAMES = ['f', 'sum', 'count', 'null', 'coalesce', 'open', 'root', 'year', 'between', 'not_f']
 STRS = ['', 'a', 'Assets:Cash', 'it"s', "it's", 'x y', 'é€', 'a\nb', '%s', '/* c */', '; x', 'NULL', "''", '""']
+# (fix-F) string contents that any TEXT-level treatment of the statement (Unicode normalisation, case folding, newline
+# translation, stripping, tab expansion, escape processing, dropping of invisible characters) would alter: a string literal
+# denotes exactly the code points between its quotes.  Strings travel as code-point lists: the Coq side needs no Unicode tables.
+USTRS = [
+    ('decomposed', 'Cafe\u0301'), ('precomposed', 'Caf\u00e9'),                          # NFD / NFC spellings of one word: two ASTs
+    ('combining-order', 'a\u0307\u0323'), ('combining-order-canonical', 'a\u0323\u0307'),
+    ('singleton', '\u212b'), ('singleton', '\u2126 10k'), ('singleton', '273\u212a'), ('singleton-target', '\u00c5 \u03a9 K'),
+    ('hangul-jamo', '\u1112\u1161\u11ab'), ('hangul-syllable', '\ud55c'),
+    ('composition-excluded', '\u0958'), ('composition-excluded', '\u0915\u093c'), ('composition-excluded-astral', '\U0001d15e'),
+    ('compatibility', 'of\ufb01ce'), ('compatibility', '\uff21\uff11'), ('compatibility', 'm\u00b2'), ('compatibility-astral', '\U0001d400\U0001d7d8'),
+    ('case-folding', 'Stra\u00dfe \u0130stanbul \u03c3\u03c2'),
+    ('astral', 'pay \U0001f600'), ('astral-zwj', '\U0001f468\u200d\U0001f469'),
+    ('rtl', '\u05e9\u05dc\u05d5\u05dd'), ('rtl-mark', '\u0633\u0644\u0627\u0645\u200f!'), ('bidi-control', 'a\u202eb\u202c'),
+    ('invisible', 'a\u200cb'), ('invisible', 'co\u00adop'), ('invisible', '\ufeffx'), ('invisible', 'x\u200b'),
+    ('nbsp', 'a\u00a0b'), ('space-at-the-edges', '\u00a0x\u00a0'), ('space-at-the-edges', ' x '), ('space-at-the-edges', '\tx\n'),
+    ('tab', 'a\tb'), ('carriage-return', 'a\rb'), ('carriage-return', 'a\r\nb'), ('line-separator', 'a\u2028b\u2029'), ('line-separator', 'a\u0085b'),
+    ('control', 'a\x01\x7fb'), ('control', 'a\x00b'), ('control', '\x1c\x0c\x0b'),
+    ('backslash', 'a\\nb\\'), ('backslash', '\\u00e9'), ('percent', '100%% %(x)s'),
+    ('non-ascii-digit', '\u0663'), ('quote-lookalike', '\u2019\u201c\u02bc'),
+]
+UPIECES = [u for _, u in USTRS] + ['a', ' ', 'Assets:', 'x', 'E\u0301', '\u0041\u030a']
+
+
+def gen_str(rng):
+    """content of a string literal / subscript key / JOURNAL pattern"""
+    r = rng.random()
+    if r < 0.55:
+        return rng.choice(STRS)
+    if r < 0.85:
+        return rng.choice(USTRS)[1]
+    return ''.join(rng.choice(UPIECES) for _ in range(rng.randint(2, 3)))
+
+
+def str_classes(u):
+    """classification for the coverage histogram only (unicodedata is never an oracle)"""
+    import unicodedata
+    out = []
+    if all(ord(c) < 128 for c in u):
+        return (['ascii'] + (['ascii:control-character-or-blank-edge'] if u != u.strip() or any(ord(c) < 32 or ord(c) == 127 for c in u) else [])
+                + (['ascii:backslash'] if '\\' in u else []))
+    out.append('non-ascii')
+    if unicodedata.normalize('NFC', u) != u:
+        out.append('not-NFC')
+    if unicodedata.normalize('NFKC', u) != u:
+        out.append('not-NFKC')
+    if unicodedata.normalize('NFD', u) != u:
+        out.append('not-NFD')
+    if any(ord(c) >= 0x10000 for c in u):
+        out.append('astral')
+    if any(unicodedata.combining(c) for c in u):
+        out.append('combining-mark')
+    if any(unicodedata.bidirectional(c) in ('R', 'AL', 'RLE', 'RLO', 'PDF') for c in u):
+        out.append('right-to-left')
+    if any(unicodedata.category(c) == 'Cf' for c in u):
+        out.append('format-character')
+    if u.lower().upper() != u.upper() or u.casefold() != u.lower():
+        out.append('case-folding-sensitive')
+    return out
+
+
+def tree_strings(e, out):
+    """every string content (constants, list elements, subscript keys, JOURNAL patterns) of a generated tree"""
+    if isinstance(e, tuple) and e and isinstance(e[0], str):
+        if e[0] == 'str' and len(e) == 2:
+            out.append(e[1])
+        elif e[0] == 'sub':
+            out.append(e[2])
+            tree_strings(e[1], out)
+            return
+        elif e[0] == 'journal':
+            if e[1] is not None:
+                out.append(e[1])
+            tree_strings(e[3], out)
+            return
+        for x in e[1:]:
+            tree_strings(x, out)
+    elif isinstance(e, (list, tuple)):
+        for x in e:
+            tree_strings(x, out)
 
 
 def cstr(s):
@@ -108,7 +189,7 @@ def gen_lit(rng):
         m = rng.randint(1, 12)
         dim = [31, 29 if (y % 4 == 0 and (y % 100 != 0 or y % 400 == 0)) else 28, 31, 30, 31, 30, 31, 31, 30, 31, 30, 31][m - 1]
         return ('date', y, m, rng.choice([1, dim, rng.randint(1, dim)]))
-    return ('str', rng.choice(STRS))
+    return ('str', gen_str(rng))
 
 
 def gen_primary(rng, depth):
@@ -130,7 +211,7 @@ def gen_primary(rng, depth):
         return ('func', rng.choice(FNAMES), [gen_expr(rng, depth - 1) for _ in range(rng.randint(0, 3))])
     if r < 0.85:
         return ('attr', gen_primary(rng, depth - 1), rng.choice(NAMES + ['null']))
-    return ('sub', gen_primary(rng, depth - 1), rng.choice(STRS))
+    return ('sub', gen_primary(rng, depth - 1), gen_str(rng))
 
 
 def gen_expr(rng, depth, sel_depth=1):
@@ -225,7 +306,7 @@ def gen_stmt(rng, depth):
     if r < 0.82:
         return ('balances', sf, fr, gen_expr(rng, depth) if rng.random() < 0.5 else None)
     if r < 0.94:
-        return ('journal', rng.choice([None, 'Assets:Cash', "it's", '']), sf, fr)
+        return ('journal', rng.choice([None, 'Assets:Cash', "it's", '', gen_str(rng), gen_str(rng)]), sf, fr)
     return ('print', fr)
 
 
@@ -886,6 +967,28 @@ def long_literal_cases():
     return out
 
 
+def unicode_literal_cases():
+    """(fix-F) every string of USTRS in every place the grammar has a string: constant (target, WHERE operand, function
+    argument, pattern of ~), list element (first and later), subscript key, JOURNAL pattern (alone, with AT, with FROM); each
+    case also carries ANOTHER string of the pool (its neighbour: the NFC / NFD twin, the canonical order, the
+    singleton's target ...), so that two strings a text-level treatment would identify stand in one statement."""
+    out = []
+    sel = lambda t=None, f=None, w=None, g=None, o=(): ('select', False, t or [(leaf(7), None)], f, w, g, list(o), None, None)
+    n = len(USTRS)
+    for i, (cls, u) in enumerate(USTRS):
+        v = USTRS[(i + 1) % n][1]
+        c, c2 = ('const', ('str', u)), ('const', ('str', v))
+        out.append((f'unicode:{cls}:target:{i}', ('select', sel(t=[(c, None), (c2, 'n')]))))
+        out.append((f'unicode:{cls}:where:{i}', ('select', sel(w=('or', [('cmp', 'Eq', leaf(0), c), ('cmp', 'Match', leaf(1), c2)])))))
+        out.append((f'unicode:{cls}:list:{i}', ('select', sel(w=('cmp', 'In', leaf(0), ('list', [('str', u), ('str', v), ('null',), ('str', u)]))))))
+        out.append((f'unicode:{cls}:key:{i}', ('select', sel(t=[(('sub', ('sub', leaf(2), u), v), None), (('func', 'f', [c, ('sub', leaf(3), u)]), None)]))))
+        sf = [None, 'cost', 'units'][i % 3]
+        fr = [None, ('from', ('cmp', 'NotMatch', leaf(0), c2), None, None, False), ('from', None, (2020, 1, 2), ('some', None), True)][(i // 3) % 3]
+        out.append((f'unicode:{cls}:journal:{i}', ('journal', u, sf, fr)))
+        out.append((f'unicode:{cls}:balances:{i}', ('balances', sf, ('from', ('cmp', 'Eq', ('sub', leaf(0), u), c2), None, None, False), ('cmp', 'Match', leaf(1), c))))
+    return out
+
+
 def matrix():
     """every parent operator x child form x operand position; attribute / subscript / unary plus only over
     the children the grammar can express there"""
@@ -1110,7 +1213,7 @@ def coq_peg(texts, tag):
 PEG_CODES = {98: 'accepted text whose node is not an ast.py statement object', 99: 'out of fuel'}
 
 
-def peg_stream(printed, muts, rng, quick):
+def peg_stream(printed, muts, rng, quick, unicode_texts=()):
     """FOUR-way comparison on the same texts as the other streams: shipped parser, parser rebuilt in-process from bql.ebnf,
     hand-written Coq parser, and peg_parse = the generic PEG interpreter (Model/Peg.v) executing Gen.Grammar.grammar
     (regenerated from bql.ebnf by generate()) inside Coq.  peg_parse must give the verdict AND the AST of the TatSu parsers
@@ -1120,7 +1223,14 @@ def peg_stream(printed, muts, rng, quick):
     n_p, n_m = int(n_p * scale), int(n_m * scale)
     corpus = [t for t in CORPUS if all(ord(c) < 0x10000 for c in t)]
     rest = [m for m in muts if m not in set(corpus)]
-    cases = ([('printed', t) for t in (printed if len(printed) <= n_p else rng.sample(printed, n_p))]
+    # (fix-F) the printed texts with non-ASCII / non-NFC string contents are ALL compared four ways (they take the place of as
+    # many sampled printed texts: the size of the stream is unchanged)
+    unicode_texts = list(dict.fromkeys(unicode_texts))
+    n_p = max(n_p // 2, n_p - len(unicode_texts))
+    uset = set(unicode_texts)
+    printed = [t for t in printed if t not in uset]
+    cases = ([('printed-unicode-strings', t) for t in unicode_texts]
+             + [('printed', t) for t in (printed if len(printed) <= n_p else rng.sample(printed, n_p))]
              + [('corpus', t) for t in corpus]
              + [('mutated', t) for t in (rest if len(rest) <= n_m else rng.sample(rest, n_m))])
     texts = [t for _, t in cases]
@@ -1385,12 +1495,23 @@ def run(tier, rng):
     cases = [('matrix:' + n, s) for n, s in matrix()]
     n_matrix = len(cases)
     cases += long_literal_cases()
+    ucases = unicode_literal_cases()
+    cases += ucases
     rcases = [(f'random:{i}', gen_stmt(rng, rng.choice(depths))) for i in range(n_rand)]
     hist, dh = {}, {}
     for _, s in rcases:
         kinds(s, hist)
         d = depth(s)
         dh[d] = dh.get(d, 0) + 1
+    shist = {}
+    sdistinct = set()
+    for _, s_ in rcases + ucases:
+        found = []
+        tree_strings(s_, found)
+        for u in found:
+            sdistinct.add(u)
+            for k in str_classes(u):
+                shist[k] = shist.get(k, 0) + 1
     texts, meta, fails = check_printed(cases, rng, 'c06m', 0 if quick else 1)
     t2, m2, f2 = check_printed(rcases, rng, 'c06r', nrender)
     texts, meta, fails = texts + t2, meta + m2, fails + f2
@@ -1443,7 +1564,9 @@ def run(tier, rng):
         if m != want:
             infid.append((text, 'impl accepts' if ri[0] == 'ok' else f'impl rejects ({ri[1]})',
                           'model accepts' if m else 'model rejects'))
-    peg_cov, peg_viol = peg_stream(texts, muts, rng, quick)
+    utexts = [t for t, m_ in zip(texts, meta) if m_[0].startswith('unicode:')]
+    utexts += [t for t, m_ in zip(texts, meta) if not m_[0].startswith('unicode:') and any(ord(c) > 127 for c in t)][:60 if quick else 600]
+    peg_cov, peg_viol = peg_stream(texts, muts, rng, quick, unicode_texts=utexts)
     violations.extend(peg_viol)
     # concurrent stream (fix-D): long printed statements + some mutants, several threads inside parse() at once
     known = {text: ri for text, (ri, rf) in zip(muts, both)}
@@ -1484,6 +1607,14 @@ def run(tier, rng):
         'grammar_rules': nrules,
         'needs_space_pairs_checked': npairs, 'needs_space_renderer_stricter_on': stricter,
         'literal_case_sequences': nseq,
+        'unicode_literal_trees': len(ucases), 'unicode_string_pool': len(USTRS),
+        'string_content_histogram': dict(sorted(shist.items(), key=lambda kv: -kv[1])), 'distinct_string_contents': len(sdistinct),
+        'unicode_rule': 'string constants, list elements, subscript keys and JOURNAL patterns carry non-ASCII and non-NFC contents (base letter + '
+                        'combining mark, non-canonical mark order, compatibility singletons U+212A/B U+2126, Hangul jamo, composition exclusions, '
+                        'compatibility forms, case-folding-sensitive letters, astral code points, right-to-left text and marks, ZWJ/ZWNJ/BOM/soft hyphen, '
+                        'NBSP, blanks at the edges, TAB/CR/CRLF/LS/PS/NEL, control characters, backslash and % sequences): a pool placed in every '
+                        'string position of the grammar + the random trees; parsed by the shipped parser, the grammar-built parser, the Coq parser '
+                        'and (all of the pool texts) the PEG interpreter; the tree must come back code point for code point',
         'model_infidelity_on_mutated': {'count': len(infid), 'rate': round(len(infid) / max(1, len(muts)), 5),
                                         'by_class': classes, 'samples': infid[:12]},
     }
